@@ -304,34 +304,34 @@ func poisonedIDs(m *mon) map[string]bool {
 		if ret == 0 {
 			ret = inf
 		}
-		// a load of this id is in flight, from the cache's point of view, from
-		// the moment the loading Get inserted its placeholder until it stored
-		// the value — bracketed by that Get's own call and return events (the
-		// load-start event alone may not have been logged yet when a panic is
-		// reported)
-		overlap := false
-		for _, g := range m.ops {
-			if g.Kind == "Get" && g.ID == o.ID && g.Call != 0 && g.Call < ret && (g.Ret == 0 || g.Ret > o.Call) && (len(g.Loaded) > 0 || g.Ret == 0) {
-				overlap = true
-				break
-			}
+		// A load is in flight, from the cache's point of view, from the moment
+		// the loading Get inserted its placeholder until it stored the value —
+		// bracketed by that Get's own call and return events (the load-start
+		// event alone may not have been logged yet when a panic is reported).
+		inFlight := func(g *opRec) bool {
+			return g.Kind == "Get" && g.ID == o.ID && g.Call != 0 && g.Call < ret && (g.Ret == 0 || g.Ret > o.Call)
 		}
-		if !overlap {
+		if o.Ret == 0 {
+			// TryRemove itself never returned (it panicked inside the cache)
+			// while some Get of the id was loading or about to
+			for _, g := range m.ops {
+				if inFlight(g) && (len(g.Loaded) > 0 || g.Ret == 0) {
+					out[o.ID] = true
+				}
+			}
 			continue
 		}
-		touched := o.Ret == 0 || o.OK || (o.Err != "" && o.Err != "ErrNotExists" && o.Err != "ErrClosed")
+		// TryRemove try-closed an instance whose loading Get had not returned
+		// yet when TryRemove was called
 		for _, in := range m.insts {
-			if in.ID != o.ID {
+			if in.ID != o.ID || in.Kind != "load" || in.LoaderOp < 0 || in.LoaderOp >= len(m.ops) || !inFlight(m.ops[in.LoaderOp]) {
 				continue
 			}
 			for _, t := range in.Tries {
 				if t.Op == o.Idx {
-					touched = true
+					out[o.ID] = true
 				}
 			}
-		}
-		if touched {
-			out[o.ID] = true
 		}
 	}
 	return out
